@@ -525,3 +525,9 @@ add(H("fs::verif::format_volume_regions12", ["C06", "C11", "C10"],
       "address), nothing behind the volume; root region zero, free part of each FAT copy zero, reserved FAT entries = media/EOC pattern, boot signature, "
       "BPB geometry bytes as derived", "373-sector FAT12 volume (338 clusters, one padding entry), default options, two FAT copies; arbitrary watched address in the metadata area",
       timeout=1800))
+
+for b_ in ("alloc", "nounicode"):
+    for c_ in ("sharp_s", "dotless_i", "ligature"):
+        add(H("dir::verif::copy_short_name_part_" + c_, ["C16", "C19"],
+              "a concrete non-ASCII character whose Unicode upper case is ASCII / multi-character becomes exactly one '_' in the alias "
+              "(alias bytes independent of the case table)", "concrete 2-character input, %s build" % b_, build=b_, timeout=900))
